@@ -335,14 +335,7 @@ func (sv *Server) SendRequest(_ context.Context, addr string, req *tikvrpc.Reque
 			return tikvrpc.GenRegionErrorResp(req, re)
 		}
 		out := &kvrpcpb.CheckTxnStatusResponse{}
-		if r.VerifyIsPrimary {
-			if k := st.peek(r.PrimaryKey); k.lock != nil && k.lock.StartTS == r.LockTs && !bytes.Equal(k.lock.Primary, r.PrimaryKey) {
-				out.Error = keyError(&Err{Class: "primary-mismatch", Key: r.PrimaryKey, Lock: k.lock})
-				resp.Resp = out
-				break
-			}
-		}
-		ts, e := st.CheckTxnStatus(r.PrimaryKey, r.LockTs, r.CallerStartTs, r.CurrentTs, r.RollbackIfNotExist, r.ResolvingPessimisticLock, r.ForceSyncCommit)
+		ts, e := st.CheckTxnStatusV(r.PrimaryKey, r.LockTs, r.CallerStartTs, r.CurrentTs, r.RollbackIfNotExist, r.ResolvingPessimisticLock, r.ForceSyncCommit, r.VerifyIsPrimary)
 		if e != nil {
 			out.Error = keyError(e)
 		} else {
